@@ -26,6 +26,9 @@ def make_config(prop, seed, tier):
         "steps": r.randint(10, 30) if tier == "quick" else r.randint(15, 70),
         "io_faults": prop == "C01" and r.random() < 0.35,
         "listing": True,
+        # several store objects on one directory = several server processes
+        # taking turns (no overlap): their in-memory caches go stale
+        "handles": r.choice([1, 1, 2, 3]),
     }
 
 
@@ -171,6 +174,10 @@ class StoreRun:
         self.path = os.path.join(self.arena.path, "st")
         try:
             self.st = new_store(self.cfg["backend"], self.path)
+            self.handles = [self.st]
+            if self.cfg["backend"] != "memory":
+                for _ in range(self.cfg.get("handles", 1) - 1):
+                    self.handles.append(open_store(self.cfg["backend"], self.path))
             FS.active = True
             if self.replay_ops is not None:
                 for op in self.replay_ops:
@@ -180,6 +187,8 @@ class StoreRun:
             else:
                 for i in range(self.cfg["steps"]):
                     op = self.gen_op()
+                    if len(self.handles) > 1:
+                        op["handle"] = self.rng.randrange(len(self.handles))
                     if self.cfg.get("io_faults") and op["op"] in ("import", "delete") and self.rng.random() < 0.2 and self.stats.get("fault.io_error_armed", 0) < 2:
                         op["fault"] = {"after": self.rng.randint(1, 25), "errno": self.rng.choice(["ENOSPC", "EIO"])}
                     self.step(op)
@@ -187,10 +196,11 @@ class StoreRun:
                         break
         finally:
             FS.active = False
-            try:
-                close_store(self.st)
-            except Exception:
-                pass
+            for h in getattr(self, "handles", []):
+                try:
+                    close_store(h)
+                except Exception:
+                    pass
             self.arena.destroy()
         nt = self.nontrivial
         return {"violations": self.violations[:4], "cfg": self.cfg, "ops": self.ops, "stats": self.stats, "digest": self.digest.hexdigest(), "engine": "store",
@@ -212,14 +222,17 @@ class StoreRun:
         self.ops.append(op)
         k = op["op"]
         self.count("op." + k)
-        st = self.st
+        hi = op.get("handle", 0) % len(self.handles)
+        st = self.st = self.handles[hi]
+        if hi:
+            self.count("op_on_second_handle")
         before = dict(self.model)
         if k == "reopen":
             FS.active = False
             close_store(st)
             self.st = None
             gc.collect()
-            self.st = open_store(self.cfg["backend"], self.path)
+            self.st = self.handles[hi] = open_store(self.cfg["backend"], self.path)
             FS.active = True
             self.count("fault.reopen")
             self.audit(op, None, None, "reopen")
